@@ -18,7 +18,6 @@ KEYS = {
     "int-accepts-non-int32": lambda c: "(num " in c and '"Int"' in c,
     "id-accepts-non-integer-number": lambda c: re.search(r'\(num "[^"]*[.eE]', c) is not None and '"ID"' in c,
     "upload-exempt-from-non-null": lambda c: '"Upload"' in c,
-    "remap-name-collision-upload": lambda c: '"Upload"' in c,
     "unknown-field-echo": lambda c: "unknown_field" in c,
 }
 
